@@ -4,6 +4,7 @@
   Property theorems only; helper lemmas live in Lemmas/RaftLemmas.lean.
 -/
 import SugarModel.Lemmas.RaftLemmas
+import SugarModel.Lemmas.NoExpiryTable
 import SugarModel.Props.C20
 namespace Sugar.Props.C07
 open Sugar Sugar.Raft
@@ -171,6 +172,66 @@ theorem replay_deterministic_partial (role : Role) (env env' : Ctx) (hnow : env.
     cases applyEntry role env' s e with
     | none => exact hr s
     | some r => exact hr r.1
+
+/-- **Determinism without a common clock.** On a keyspace that holds no deadline, an entry whose
+    command is clock-free — its word is outside `envSensitive` and outside `expirySetters` (SET with
+    options, EXPIRE/PEXPIRE/EXPIREAT/PEXPIREAT, GETEX), or it is a plain `SET key value` — is applied
+    to the same state with the same answer by two nodes whose environments differ in the clock
+    reading, the map order and the random source (only the configuration is shared), in either role;
+    and the keyspace still holds no deadline afterwards. Unlike `apply_deterministic_partial` no
+    `env.now = env'.now` is assumed: the handler program never reads the clock, and the only
+    primitive that does (the lazy expiry inside getValues) finds nothing to expire. -/
+theorem apply_deterministic_clockfree_partial (role : Role) (env env' : Ctx) (s : State) (e : LogEntry)
+    (hcfg : env.cfg = env'.cfg) (hcf : ClockFree e.cmd) (hs : s.NoDeadlines) :
+    applyEntry role env s e = applyEntry role env' s e ∧
+    ∀ s' o, applyEntry role env s e = some (s', o) → s'.NoDeadlines := by
+  have hc : (entryCtx env e).SameButClock (entryCtx env' e) := ⟨rfl, hcfg, rfl⟩
+  obtain ⟨hp, hns⟩ := progOf_clockFree (entryCtx env e) (entryCtx env' e) e.cmd hcf
+  unfold applyEntry
+  split
+  · exact ⟨rfl, by intro s' o hx; simp only [Option.some.injEq, Prod.mk.injEq] at hx; rw [← hx.1]; exact hs⟩
+  · rw [hp]
+    cases hq : progOf (entryCtx env e) e.cmd with
+    | none => exact ⟨rfl, by intro s' o hx; simp at hx⟩
+    | some p =>
+      obtain ⟨h1, h2⟩ := runCl_now_irrelevant role _ _ hc p s (hns p hq) hs
+      simp only [Option.map_some, Option.some.injEq]
+      refine ⟨h1, ?_⟩
+      intro s' o hx
+      rw [hx] at h2
+      exact h2
+
+/-- lifted to logs: **replicas with different clocks converge** — applying the same log of clock-free
+    commands from the same deadline-free state on two nodes that share only the configuration gives
+    the same dataset, whatever their clocks, map orders and random sources. -/
+theorem replay_deterministic_clockfree_partial (role : Role) (env env' : Ctx) (hcfg : env.cfg = env'.cfg)
+    (log : List LogEntry) (hcf : ∀ e ∈ log, ClockFree e.cmd) :
+    ∀ s, s.NoDeadlines → replayLog role env s log = replayLog role env' s log := by
+  induction log with
+  | nil => intro s _; rfl
+  | cons e r ih =>
+    intro s hs
+    obtain ⟨he, hnd⟩ := apply_deterministic_clockfree_partial role env env' s e hcfg (hcf e List.mem_cons_self) hs
+    have hr := ih (fun x hx => hcf x (List.mem_cons_of_mem _ hx))
+    simp only [replayLog, ← he]
+    cases hx : applyEntry role env s e with
+    | none => exact hr s hs
+    | some r => exact hr r.1 (hnd r.1 r.2 hx)
+
+/-- non-vacuity: a log mixing families, applied under two different clocks from the empty keyspace -/
+example :
+    let log : List LogEntry := [{ db := 0, cmd := [b "SET", b "k", b "v"] }, { db := 1, cmd := [b "rpush", b "l", b "x"] },
+      { db := 0, cmd := [b "hset", b "h", b "f", b "1"] }, { db := 0, cmd := [b "incr", b "n"] }]
+    (∀ e ∈ log, ClockFree e.cmd) ∧
+    replayLog .follower { db := 0, now := 1000 } { dbs := [], mem := 0 } log ≠ { dbs := [], mem := 0 } := by
+  refine ⟨?_, by decide +kernel⟩
+  intro e he
+  simp only [List.mem_cons, List.not_mem_nil, or_false] at he
+  rcases he with rfl | rfl | rfl | rfl
+  · exact Or.inr ⟨_, _, _, rfl, by decide⟩
+  · exact Or.inl (by decide)
+  · exact Or.inl (by decide)
+  · exact Or.inl (by decide)
 
 /-- the full statement is false: SPOP takes whatever the node's random source names -/
 theorem spop_diverges_witness :
